@@ -66,6 +66,22 @@ def gen_cases(tier, seed):
         td = bool(k % 3 == 2) or (k % 4 == 1)
         cases.append({"layer": "L2", "device": dev, "options": o, "B": B, "c": c, "time_dependent": td, "pulse": bool(k % 4 == 1),
                       "currents": S.current_spec(rng, dev, o, "const" if nt and k % 2 == 0 else "none", strength=0.15), "cost": 60 if scr else 20})
+    nvar = 3 if tier == "quick" else 12
+    for k in range(nvar):
+        # variants of the run-level pair: the device went through a file (saved and re-loaded) before both runs; or both runs CONTINUE
+        # a first part (seed solution; the partner's seed is the gauge image of the same state, its recorded A stays in the old gauge)
+        variant = ["reload", "seeded_static", "seeded_td"][k % 3]
+        nt = [0, 2, 2][k % 3]
+        dev = zoo.gen_device(rng, n_terminals=nt, n_holes=0, probes=0, size="small", smooth=0, gamma=float(rng.choice([1.0, 10.0])))
+        o = S.base_options(rng, adaptive=bool(k % 2), steps=150)
+        o.update(dt_max=0.02, dt_init=4e-3, solve_time=0.6, terminal_psi=0.0)
+        sc = S._scales(dev, o)
+        B = 0.3 * sc.Bc2 / sc.fu
+        Amax = B * dev["film"].get("w", 4.0) / 2
+        ang = float(rng.uniform(0, 2 * np.pi))
+        c = [Amax * 3.0 * np.cos(ang), Amax * 3.0 * np.sin(ang)]
+        cases.append({"layer": "L2", "device": dev, "options": o, "B": B, "c": c, "time_dependent": variant == "seeded_td", "pulse": False, "variant": variant,
+                      "currents": S.current_spec(rng, dev, o, "const" if nt else "none", strength=0.15), "cost": 25})
     nslow = 2 if tier == "quick" else 12
     for k in range(nslow):
         # slowly creeping field, offset much larger than A itself: the per-step change of A is tiny relative to |A + c|
@@ -224,6 +240,14 @@ def _uniform_shifted_td(x, y, z, *, t, B, cx, cy, T, pulse=False, slow=False):
     return np.stack([-f * B * y / 2 + cx, f * B * x / 2 + cy, np.zeros_like(x)], axis=1)
 
 
+def _make_closure_potential(B, cx, cy):
+    """Static uniform-field potential whose gauge offset lives in a closure (not in the Parameter's kwargs)."""
+    def A(x, y, z):
+        x = np.atleast_1d(x); y = np.atleast_1d(y)
+        return np.stack([-B * y / 2 + cx, B * x / 2 + cy, np.zeros_like(x)], axis=1)
+    return A
+
+
 class _Keep(simmon.Base):
     def __init__(self):
         super().__init__()
@@ -242,6 +266,18 @@ def _l2(spec):
     if dev is None:
         return {"violations": [], "counters": {"refused_mesh": 1}, "classes": ["refused"], "nontrivial": False}
     B, c = spec["B"], spec["c"]
+    variant = spec.get("variant")
+    if variant == "reload":
+        import os
+        import shutil
+        import tempfile
+
+        tmpd = tempfile.mkdtemp(prefix="vt_c04_")
+        try:
+            dev.to_hdf5(os.path.join(tmpd, "dev.h5"))
+            dev = tdgl.Device.from_hdf5(os.path.join(tmpd, "dev.h5"))
+        finally:
+            shutil.rmtree(tmpd, ignore_errors=True)
     # keep the explicit scheme inside its linear stability bound (see C17): outside it rounding differences
     # between the two gauges are amplified exponentially and the comparison would not be sound
     import scipy.linalg as sla
@@ -265,8 +301,31 @@ def _l2(spec):
         o["solve_time"] = nsteps * o["dt_init"]
     T = (0.3 if spec.get("pulse") else 0.5) * spec["options"]["solve_time"]
     runs = []
+    seeded = variant in ("seeded_static", "seeded_td")
+    first_path = first_dir = None
+    if seeded:
+        # first part of the history, in the unshifted gauge, written to a file; both runs below continue it
+        import os
+        import tempfile
+
+        first_dir = tempfile.mkdtemp(prefix="vt_c04s_")
+        o1 = dict(spec["options"], solve_time=0.4 * spec["options"]["solve_time"])
+        opts1 = sim.build_options(o1, output_file=os.path.join(first_dir, "first.h5"))
+        tc1 = sim.build_drive({"currents": spec["currents"]}, dev, opts1)[1]
+        try:
+            s1 = tdgl.solve(dev, opts1, applied_vector_potential=tdgl.Parameter(_make_closure_potential(float(B), 0.0, 0.0)), terminal_currents=tc1)
+            first_path = s1.path
+        except RuntimeError as e1:
+            import shutil
+
+            shutil.rmtree(first_dir, ignore_errors=True)
+            if "singular" in str(e1) or "converge" in str(e1):
+                return {"violations": [], "counters": {"refused_mesh": 1}, "classes": ["refused"], "nontrivial": False}
+            raise
     for shift in ((0.0, 0.0), tuple(c)):
-        if spec["time_dependent"]:
+        if variant == "seeded_static":
+            avp = tdgl.Parameter(_make_closure_potential(float(B), float(shift[0]), float(shift[1])))  # the offset is held in a closure
+        elif spec["time_dependent"]:
             avp = tdgl.Parameter(_uniform_shifted_td, B=float(B), cx=float(shift[0]), cy=float(shift[1]), T=float(T), pulse=bool(spec.get("pulse")), slow=bool(spec.get("slow")), time_dependent=True)
         else:
             avp = tdgl.Parameter(_uniform_shifted, B=float(B), cx=float(shift[0]), cy=float(shift[1]))
@@ -280,6 +339,10 @@ def _l2(spec):
             chi = solver.A_scale * (shift[0] * r[:, 0] + shift[1] * r[:, 1]) / dev.layer.coherence_length
             solver._vt_chi = chi
             solver.psi_init = solver.psi_init * np.exp(1j * chi)
+            if solver.seed_solution is not None:
+                # the gauge image of the saved state (its recorded vector potential stays what it was: the old gauge)
+                sd = solver.seed_solution.tdgl_data
+                sd.psi = np.asarray(sd.psi) * np.exp(1j * chi)
 
         from ..recorder import Recorder
 
@@ -287,7 +350,8 @@ def _l2(spec):
         exc = None
         with rec:
             try:
-                solver = tdgl.TDGLSolver(dev, opts, applied_vector_potential=avp, terminal_currents=tc)
+                seed = tdgl.Solution.from_hdf5(first_path) if seeded else None
+                solver = tdgl.TDGLSolver(dev, opts, applied_vector_potential=avp, terminal_currents=tc, seed_solution=seed)
                 pre(solver)
                 solver.solve()
             except Exception as e:  # noqa: BLE001
@@ -302,6 +366,10 @@ def _l2(spec):
                         "counters": {"run_pairs": 1}, "classes": ["L2"], "nontrivial": True}
             return {"status": "harness_error", "error": repr(exc)[:300]}
         runs.append((keep.ups, solver._vt_chi))
+    if first_dir:
+        import shutil
+
+        shutil.rmtree(first_dir, ignore_errors=True)
     (a, _), (b, chi) = runs
     V, C, W = [], {"run_pairs": 1, "run_steps_compared": 0}, {}
     gate = 1e-7
@@ -340,7 +408,7 @@ def _l2(spec):
     o = spec["options"]
     return {"violations": V, "counters": C, "worst": W,
             "classes": ["L2", "screening=" + str(bool(o.get("include_screening"))), "adaptive=" + str(o["adaptive"]), f"terminals={len(spec['device']['terminals'])}",
-                        "I=" + spec["currents"]["kind"], "time_dependent=" + str(spec["time_dependent"]), "pulse=" + str(bool(spec.get("pulse"))), "slow=" + str(bool(spec.get("slow")))],
+                        "I=" + spec["currents"]["kind"], "time_dependent=" + str(spec["time_dependent"]), "pulse=" + str(bool(spec.get("pulse"))), "slow=" + str(bool(spec.get("slow"))), "variant=" + str(spec.get("variant"))],
             "nontrivial": C["run_steps_compared"] >= 20, "sample": {"steps": len(a), "shift": c, "worst_over_gate": W}}
 
 
